@@ -2064,6 +2064,10 @@ class Parallel(Logger):
         # are defined locally (inside another function) and lambda expressions.
         self._pickle_cache = dict()
 
+        # Drop the batches that a previous, aborted call sliced from its
+        # iterator but never dispatched: they must not leak into this call.
+        self._ready_batches = queue.Queue()
+
         output = self._get_outputs(iterator, pre_dispatch)
         self._call_ref = weakref.ref(output)
 
